@@ -80,7 +80,8 @@ func NewUser(name string, hash []byte, admin bool, privileges map[string][]Privi
 		for _, p := range privileges {
 			mask |= p
 		}
-		ps[clean] = mask
+		// Several spellings of one resource grant what each of them grants.
+		ps[clean] |= mask
 	}
 	// Make our own copy of the hash
 	h := make([]byte, len(hash))
